@@ -5,7 +5,7 @@ import sys
 from pathlib import Path
 sys.path.insert(0, str(Path(__file__).resolve().parents[1]))
 status = {}
-for name in ('skeleton', 'cli_surface', 'formulas', 'blocks', 'pipeline', 'cover', 'bands'):
+for name in ('normal_form', 'skeleton', 'cli_surface', 'formulas', 'blocks', 'pipeline', 'cover', 'bands'):
     try:
         mod = __import__('translate.' + name, fromlist=['main'])
         status[name] = bool(mod.main())
